@@ -43,7 +43,14 @@ def cbsStr (cs : List GCb) : String := "cb=[" ++ ",".intercalate (cs.map cbStr) 
 
 def sortNat (l : List Nat) : List Nat := (l.toArray.qsort (· < ·)).toList
 
-def minStr (r : Option Nat × Int) : String := optNatStr r.1 ++ ":" ++ toString r.2
+/-- `dialer.Timeout` prints as `T` (the harness prints `T` for whatever the constant is in the code) -/
+def latStr (l : Int) : String := if l = dialTimeout then "T" else toString l
+
+/-- the latency handed out next to "nobody" is a placeholder: not printed -/
+def minStr (r : Option Nat × Int) : String :=
+  match r.1 with
+  | none => "nil"
+  | some d => toString d ++ ":" ++ toString r.2
 
 /-- observable dump of one set -/
 def setDump (s : ASet) : String :=
@@ -65,6 +72,14 @@ def groupDump (g : Group) : String :=
 
 def parseOffs (s : String) : Option (List Int) :=
   if s = "-" then some [] else (s.splitOn ",").mapM parseInt?
+
+/-- `starSel`: the reported admitting domain is outside the statement for `fixed` and for the
+single-node last resort (latency `T`): printed as `*` -/
+def resStrS (starSel : Bool) : Except SelErr (List SelOk) → String
+  | .ok l => "ok " ++ ",".intercalate (l.map fun r =>
+      s!"{r.d}:{latStr r.lat}:{if starSel || r.lat = dialTimeout then "*" else toString r.sel}")
+  | .error .noAlive => "err=noalive"
+  | .error _ => "err=other"
 
 def resStr : Except SelErr (List SelOk) → String
   | .ok l => "ok " ++ ",".intercalate (l.map fun r => s!"{r.d}:{r.lat}:{r.sel}")
@@ -188,7 +203,7 @@ def handle (st : DState) (line : String) : DState × String :=
   | [op, l4, ip, dns, dom, strict, excl] =>
     match st.w.map (·.g), parseNetType? l4 ip dns dom, parseExcl? excl with
     | some g, some nt, some ex =>
-      if op = "sel" then (st, resStr (selectAll g nt (strict = "1") ex))
+      if op = "sel" then (st, resStrS (g.policy == .fixed) (selectAll g nt (strict = "1") ex))
       else if op = "choose" then (st, resStrNoLat (chooseSelectAll g nt (strict = "1") ex))
       else (st, "bad-op")
     | _, _, _ => (st, "bad-op")
